@@ -261,6 +261,7 @@ func child(mode string, in json.RawMessage) any {
 	} else {
 		p = wgen.Generate(r, cfg)
 		script = wrun.GenScript(r, p, 3+r.Intn(6))
+		decorate(p, int64(pc.Prog))
 	}
 	feats := wrun.Features(cfg)
 	pt := pc.P
@@ -382,6 +383,31 @@ func child(mode string, in json.RawMessage) any {
 		pr.Sample = base.Events[:min(len(base.Events), 4)]
 	}
 	return pr
+}
+
+// decorate appends 0-3 custom sections (never semantic) to the binary of three programs out of four: arbitrary names,
+// DWARF section names with arbitrary payloads, and empty payloads (also as the very last bytes of the module). Whether
+// they are decoded depends on WithDebugInfoEnabled / WithCustomSections, so acceptance and behaviour must not.
+func decorate(p *wgen.Program, seed int64) {
+	r := core.NewRng(seed, 77)
+	n := r.Intn(4)
+	names := []string{"x", "", ".debug_info", ".debug_line", ".debug_abbrev", ".debug_str", ".debug_ranges", "producers", "target_features", "näme"}
+	for i := 0; i < n; i++ {
+		name := names[r.Intn(len(names))]
+		var payload []byte
+		switch r.Intn(4) {
+		case 0: // empty
+		case 1:
+			payload = r.Bytes(1 + r.Intn(4))
+		default:
+			payload = r.Bytes(5 + r.Intn(60))
+		}
+		body := append(wenc.U32(nil, uint32(len(name))), name...)
+		body = append(body, payload...)
+		p.Bin = append(p.Bin, 0)
+		p.Bin = wenc.U32(p.Bin, uint32(len(body)))
+		p.Bin = append(p.Bin, body...)
+	}
 }
 
 // deepTailCalls builds count(n) = n==0 ? 42 : return_call count(n-1) and the same through
